@@ -1,5 +1,6 @@
 import Lemmas.QuadTreeTree
 import Lemmas.QuadTreeGeom
+import Lemmas.QuadTreeFuel
 /-! # C07 — QuadTree queries return exactly what a linear scan of the stored nodes would
 
 Property theorems only.  `QT.Tree` / `QT.Node` are the executable model of `collection/quadtree` (`Model/QuadTree.lean`)
@@ -165,30 +166,40 @@ theorem queries_rat (bounds : Nat → Rect Rat) (fuel : Nat) (k : Int) (ops : Li
 
 /-! ### fuel -/
 
-/-- every subtree is no deeper than the size measure `W + H` of its own rectangle -/
-def Shallow : Node (Rect Int) → Prop
-  | .leaf _ _ => True
-  | .split r cs c0 c1 c2 c3 =>
-    (Node.split r cs c0 c1 c2 c3).depth ≤ (r.w + r.h).toNat ∧ Shallow c0 ∧ Shallow c1 ∧ Shallow c2 ∧ Shallow c3
-
-/-- full statement of the fuel theorem (not proved here): for integer rectangles insertion with any fuel keeps every
-    subtree no deeper than `W + H` of its rectangle, so fuel `W + H + 1` of the root always suffices
-    (`Tree.fuelOK`) -/
-def split_terminates_int_Statement : Prop :=
-  ∀ (threshold fuel : Nat) (n : Node (Rect Int)) (it : Item (Rect Int)),
-    n.rect.empty = false → Shallow n → Shallow (Node.insert threshold fuel n it)
-
-/-- the step the fuel theorem rests on, proved: when an integer node splits (`canSplit`: half-width or half-height
-    positive), every child that can receive an item (non-empty child) has a strictly smaller `W + H` than its
-    parent — including child 0 with its `hw × hw` size.  (False for the code before its repair: a 1×1 node had a 1×1
+/-- **splitting terminates for integer coordinates**: `QT.Good` (every split node is non-empty, its empty children are
+    untouched leaves and its non-empty children have a strictly smaller `W + H`) holds for a fresh leaf, is kept by
+    node insertion with *every* threshold and fuel, and bounds the depth of every good node by `W + H` of its
+    rectangle.  Hence no node of an integer quadtree ever sits deeper than `W + H` of the root, and fuel
+    `W + H + 1` can never run out (`Tree.fuelOK`).  (False for the code before its repair: a 1×1 node had a 1×1
     child 3.) -/
-theorem split_terminates_int_partial (r : Rect Int) (hr : r.empty = false) (hs : canSplit halfInt r = true) :
+theorem split_terminates_int (threshold fuel : Nat) (n : Node (Rect Int)) (it : Item (Rect Int))
+    (hn : Good n) (hr : n.rect.empty = false) :
+    Good (Node.insert threshold fuel n it) ∧ (Node.insert threshold fuel n it).rect = n.rect ∧
+    (Node.insert threshold fuel n it).depth ≤ (n.rect.w + n.rect.h).toNat := by
+  obtain ⟨a, b⟩ := insert_good threshold fuel n it hn hr
+  refine ⟨a, b, ?_⟩
+  have := depth_le_meas _ a (by rw [b]; exact hr)
+  rw [b] at this; exact this
+
+/-- the same over a whole `Reorganize`: the root built by inserting any list of items into the fresh leaf is no deeper
+    than `W + H` of the union rectangle -/
+theorem reorganize_depth_int (threshold fuel : Nat) (rect : Rect Int) (hr : rect.empty = false)
+    (items : List (Item (Rect Int))) :
+    (items.foldl (fun n one => Node.insert threshold fuel n one) (Node.leaf rect [])).depth ≤ (rect.w + rect.h).toNat := by
+  obtain ⟨a, b⟩ := fold_good (Node.insert threshold fuel) (insert_good threshold fuel) items (Node.leaf rect [])
+    trivial hr
+  have := depth_le_meas _ a (by rw [b]; exact hr)
+  rw [b] at this; exact this
+
+/-- the step this rests on: when an integer node splits (`canSplit`: half-width or half-height positive), every child
+    that can receive an item (non-empty child) has a strictly smaller `W + H` than its parent — including child 0
+    with its `hw × hw` size -/
+theorem split_progress_int (r : Rect Int) (hr : r.empty = false) (hs : canSplit halfInt r = true) :
     let q := quadrants halfInt r
     (q.1.empty = false → q.1.w + q.1.h < r.w + r.h) ∧ (q.2.1.empty = false → q.2.1.w + q.2.1.h < r.w + r.h) ∧
     (q.2.2.1.empty = false → q.2.2.1.w + q.2.2.1.h < r.w + r.h) ∧
     (q.2.2.2.empty = false → q.2.2.2.w + q.2.2.2.h < r.w + r.h) := by
-  have hw : 0 < r.w ∧ 0 < r.h := by
-    simp only [Rect.empty, Bool.or_eq_false_iff, decide_eq_false_iff_not, Int.not_le] at hr; exact hr
+  have hw : 0 < r.w ∧ 0 < r.h := nonempty_pos r hr
   have e1 : halfInt r.w = r.w / 2 := by
     unfold halfInt; exact Int.tdiv_eq_ediv_of_nonneg (by omega)
   have e2 : halfInt r.h = r.h / 2 := by
